@@ -319,6 +319,12 @@ func (v *T) IntIn(name string, lo, hi int) int {
 	return x
 }
 
+// Choose is one of vals, selected by the integer symbol name in [0, len(vals)-1] (symbolically: one
+// if-then-else term, not one path per alternative).
+func Choose[E Scalar](v *T, name string, vals ...E) E {
+	return vals[v.IntIn(name, 0, len(vals)-1)]
+}
+
 func (v *T) Int64In(name string, lo, hi int64) int64 {
 	x := Sym[int64](v, name)
 	if _, ok := v.raw(name); !ok {
